@@ -18,8 +18,8 @@ import (
 func (c *callRec) mark() { c.marked = true }
 
 func (w *CliWorld) bgTransactions() int {
-	if w.relay != nil || w.tcpAlloc != nil {
-		return 1 << 20 // refresh traffic runs in the background: the table is not judged
+	if w.relay != nil || w.tcpAlloc != nil || w.stream {
+		return 1 << 20 // refresh traffic runs in the background (or the wire is a stream, which the observer does not parse): the table is not judged
 	}
 	return 0
 }
@@ -108,7 +108,7 @@ func (w *CliWorld) execRelay(op *Op, cli *turn.Client) bool {
 		w.mu.Lock()
 		w.injected = append(w.injected, injRec{T: w.K.Now(), Peer: ustr(peer), Data: payload, Known: true, Sure: true})
 		w.mu.Unlock()
-		w.Net.SendUDP(w.SrvAddr, w.cliAddr, m.Raw)
+		w.srvSend(w.SrvAddr, w.cliAddr, m.Raw)
 	case "srv_chandata":
 		payload := MakePayload(w.P.Seed, "srv", op)
 		w.mu.Lock()
@@ -135,14 +135,14 @@ func (w *CliWorld) execRelay(op *Op, cli *turn.Client) bool {
 		}
 		w.injected = append(w.injected, injRec{T: w.K.Now(), Peer: peer, Data: payload, Chan: uint16(op.A.Chan), Known: known, Sure: sure})
 		w.mu.Unlock()
-		w.Net.SendUDP(w.SrvAddr, w.cliAddr, buildChannelData(uint16(op.A.Chan), payload, true))
+		w.srvSend(w.SrvAddr, w.cliAddr, buildChannelData(uint16(op.A.Chan), payload, true))
 	case "srv_connattempt":
 		for i := 0; i < op.A.N; i++ {
 			m, err := stun.Build(stun.TransactionID, stun.NewType(methodConnAttempt, stun.ClassIndication), aPeer(net.ParseIP("10.0.2.9"), 7000+i), aConnID(uint32(1000+i)))
 			if err != nil {
 				Fatalf("build connattempt: %v", err)
 			}
-			w.Net.SendUDP(w.SrvAddr, w.cliAddr, m.Raw)
+			w.srvSend(w.SrvAddr, w.cliAddr, m.Raw)
 		}
 		w.K.Stats.Probe("connattempt_burst")
 	case "srv_raw":
@@ -151,7 +151,7 @@ func (w *CliWorld) execRelay(op *Op, cli *turn.Client) bool {
 		if op.A.Peer != "" {
 			from = mustUDPAddr(op.A.Peer) // a stranger
 		}
-		w.Net.SendUDP(from, w.cliAddr, b)
+		w.srvSend(from, w.cliAddr, b)
 	case "handle_inbound":
 		b, _ := hex.DecodeString(op.A.Raw)
 		from := w.SrvAddr
@@ -410,6 +410,9 @@ func (w *CliWorld) unblockInstant(c *callRec) int64 {
 }
 
 func (w *CliWorld) livenessRelay(now int64, stalled bool) {
+	if w.stream {
+		return // bytes that cannot start a frame end a stream for good: only crashes, spins and hangs are judged there
+	}
 	if stalled {
 		return // a stalled client may legitimately miss its retransmission schedule
 	}
